@@ -37,3 +37,37 @@ CHECKS["C05"] = {
          "covers": ["C05.seq.advanced", "C05.seq.end"]},
     ],
 }
+
+CHECKS["C07"] = {
+    "only": ["C07."],
+    "explanation": "C07: nextConfiguration/checkConfiguration are executed on an arbitrary valid configuration and an arbitrary request (all commands incl. out-of-range, "
+                   "colliding/empty ids and addresses, any prevIndex); the result must differ by at most one voter, keep >=1 voter and unique ids/addresses, reject a stale "
+                   "prevIndex, and never touch the caller's backing array.",
+    "outside": "racing membership requests with elections beyond the gate being evaluated on an arbitrary state",
+    "assumptions": [],
+    "harnesses": [
+        {"fn": "vh_C07_check_config", "what": "checkConfiguration(cfg) == nil <=> cfg has unique non-empty ids/addresses and >= 1 voter",
+         "bounds_quick": "N<=3 servers, arbitrary suffrage ints, ids/addresses may collide or be empty", "bounds_thorough": "N<=4",
+         "covers": ["C07.check.accepted", "C07.check.rejected"]},
+        {"fn": "vh_C07_next_config", "what": "one nextConfiguration(current, index, request)",
+         "bounds_quick": "N<=3 servers, caller slice with and without spare capacity", "bounds_thorough": "N<=4",
+         "covers": ["C07.next.ok", "C07.next.error", "C07.next.stale-prev", "C07.next.addvoter", "C07.next.addnonvoter", "C07.next.demote", "C07.next.remove", "C07.next.promote", "C07.next.unknown-command"]},
+    ],
+}
+
+CHECKS["C19"] = {
+    "only": ["C19."],
+    "explanation": "C19: LogCache over a model backend (window of symbolic cells). INDUCTIVE: from an arbitrary (cache, backend) pair satisfying 'every occupied slot "
+                   "mirrors the backend entry at its index and sits at index%capacity', one arbitrary StoreLog/StoreLogs/DeleteRange/FirstIndex/LastIndex (backend failures "
+                   "injected) preserves the invariant, forwards the call unchanged, and an arbitrary read through the cache equals the direct backend read.",
+    "outside": "non-atomic (partial) batch failure of a backend; a caller mutating a *Log after storing it; capacities > 4; window > 3",
+    "assumptions": ["window base is a multiple of 12 (so idx%capacity folds for capacity in 1..4); positions are case-split over the window, contents stay symbolic",
+                    "the backend fails atomically (an injected failure has no effect)"],
+    "harnesses": [
+        {"fn": "vh_C19_new", "what": "NewLogCache refuses capacity <= 0 and starts empty", "bounds": "capacity any int <= 4", "covers": ["C19.new.refused"]},
+        {"fn": "vh_C19_inductive", "what": "one operation from an arbitrary invariant-satisfying state", "bounds_quick": "capacity 1..3, window W=3, batches of 1-2 logs",
+         "bounds_thorough": "capacity 1..4", "covers": ["C19.read.hit-or-forward", "C19.store.backend-error", "C19.delete.backend-error", "C19.inductive.end"]},
+        {"fn": "vh_C19_diff", "what": "NewLogCache + S operations, then a read", "bounds_quick": "S=2, capacity 1..3, W=2", "bounds_thorough": "S=3",
+         "covers": ["C19.diff.end", "C19.read.hit-or-forward"], "thorough": {"max_paths": 600000}},
+    ],
+}
